@@ -8,6 +8,7 @@ package c01
 import (
 	"fmt"
 	"os"
+	"regexp"
 	"sort"
 	"strings"
 	"testing"
@@ -32,6 +33,10 @@ type cfg struct {
 	// Custom: P is a fixed_window_custom_counter quota (a request costs the number of units in
 	// its x-cost header; max is in units)
 	Custom bool
+	// Prefill: before the history starts, this many OTHER header groups (o0, o1, ...) have
+	// each sent one request: a start state with many groups; the alphabet then also has a
+	// request of a group never seen before
+	Prefill int
 }
 
 func quotaYAML(c cfg) string {
@@ -167,9 +172,15 @@ func alphabet(c cfg) []event {
 			ev = append(ev, event{group: g, target: t})
 		}
 	}
+	if c.Prefill > 0 {
+		ev = append(ev, event{group: freshGroup, target: "p"})
+	}
 	ev = append(ev, event{tick: time.Second}, event{tick: time.Duration(c.W) * time.Second})
 	return ev
 }
+
+// freshGroup stands for a header value no earlier request carried (n1, n2, ... in order of use)
+const freshGroup = "<new>"
 
 // window reference: opens at the first charged request at or after the previous window's
 // end and lasts W.
@@ -188,6 +199,7 @@ type model struct {
 	wins   map[string]*win
 	n      int
 	refuse int
+	fresh  int
 }
 
 func newModel(c cfg) *model {
@@ -195,7 +207,13 @@ func newModel(c cfg) *model {
 	if err != nil {
 		panic("engine did not load: " + err.Error())
 	}
-	return &model{c: c, alpha: alphabet(c), s: s, root: root, wins: map[string]*win{}}
+	m := &model{c: c, alpha: alphabet(c), s: s, root: root, wins: map[string]*win{}}
+	for i := 0; i < c.Prefill; i++ {
+		if fail := m.apply(event{group: fmt.Sprintf("o%d", i), target: "p"}); fail != "" {
+			panic("prefill: " + fail)
+		}
+	}
+	return m
 }
 
 func (m *model) close() { eng.Remove(m.root) }
@@ -233,8 +251,13 @@ func (m *model) childMax() int64 {
 	return m.c.ChildMax
 }
 
-func (m *model) Apply(ei int) string {
-	e := m.alpha[ei]
+func (m *model) Apply(ei int) string { return m.apply(m.alpha[ei]) }
+
+func (m *model) apply(e event) string {
+	if e.group == freshGroup {
+		m.fresh++
+		e.group = fmt.Sprintf("n%d", m.fresh)
+	}
 	if e.tick > 0 {
 		time.Sleep(e.tick)
 		return ""
@@ -345,7 +368,32 @@ func (m *model) Key() string {
 		p = append(p, fmt.Sprintf("%s:%d/%d@%v", k, w.count, w.admitted, age))
 	}
 	sort.Strings(p)
-	return strings.Join(p, ",") + "|" + streams.VerifQuotaDump(m.s, now)
+	key := strings.Join(p, ",") + "|" + streams.VerifQuotaDump(m.s, now)
+	if m.c.Prefill > 0 {
+		key = collapseOthers(key)
+	}
+	return key
+}
+
+var otherGroupRe = regexp.MustCompile(`(P_)?o\d+([:=][^,\]|]*)`)
+
+// collapseOthers replaces the entries of the pre-filled groups o0, o1, ... by one entry per
+// distinct value with its multiplicity (the groups are interchangeable: no event of the
+// alphabet names one of them).
+func collapseOthers(key string) string {
+	count := map[string]int{}
+	out := otherGroupRe.ReplaceAllStringFunc(key, func(m string) string {
+		sub := otherGroupRe.FindStringSubmatch(m)
+		count[sub[1]+"o*"+sub[2]]++
+		return "\x00"
+	})
+	out = strings.ReplaceAll(strings.ReplaceAll(out, "\x00,", ""), "\x00", "")
+	var cs []string
+	for k, n := range count {
+		cs = append(cs, fmt.Sprintf("%sx%d", k, n))
+	}
+	sort.Strings(cs)
+	return out + "|others:" + strings.Join(cs, ";")
 }
 
 func configs(thorough bool) []cfg {
@@ -359,6 +407,9 @@ func configs(thorough bool) []cfg {
 		{Name: "parent max4 + child 50%", Max: 4, W: 2, Child: true, ChildPct: 50},
 		{Name: "parent max2 + child max1, both limiters on child URL", Max: 2, W: 2, Child: true, ChildMax: 1, BothLimit: true},
 		{Name: "custom counter max2 W2 (costs 1 and 3)", Max: 2, W: 2, Custom: true},
+		// a non-initial start state: 1100 other groups have been seen (more than any plausible
+		// internal bound on tracked groups up to 1024)
+		{Name: "flat grouped max1 W2, 1100 other groups seen", Max: 1, W: 2, Group: true, Prefill: 1100},
 	}
 	if thorough {
 		cs = append(cs, cfg{Name: "flat max2 W3", Max: 2, W: 3},
@@ -414,6 +465,9 @@ func TestCheck(t *testing.T) {
 		d := depth
 		if !c.Child {
 			d++
+		}
+		if c.Prefill > 0 {
+			d = mc.Pick(r, 5, 6)
 		}
 		for first := range al {
 			shard++
